@@ -96,7 +96,7 @@ fn parse_addr_stub(_input: &str) -> Result<IpAddr, LexError<'_>> {
 }
 
 #[kani::proof]
-#[kani::unwind(8)]
+#[kani::unwind(18)]
 #[kani::stub(crate::rhs_types::ip::parse_addr, parse_addr_stub)]
 fn c06_ip_range_rule() {
     let a4: bool = kani::any();
